@@ -143,6 +143,14 @@ def make_task_class(index: int):
                         raise TransientError("scripted transient failure (no progress)")
                 return TaskResult.success(outputs=_emit(spec, label, ctx))
             if b == "suspend":
+                k = spec.get("k", 1)  # how many times the task suspends before it succeeds
+                if k > 1:
+                    # the engine never clears _signal_name, so further suspensions are counted in harness memory
+                    with _LOCK:
+                        done = sum(1 for e in LEDGER if e["stage"] == label and e["task"] == index) - 1
+                    if done >= k and "_signal_name" in ctx:
+                        return TaskResult.success(outputs=_emit(spec, label, ctx))
+                    return TaskResult.suspend()
                 if "_signal_name" in ctx:
                     out = _emit(spec, label, ctx)
                     return TaskResult.success(outputs=out)
